@@ -238,8 +238,21 @@ func Observe(s *packet.Session, buf, p []byte) (o Obs) {
 // Run decodes the six tokens of a case and observes Parse on a fresh session.
 func Run(a []string) Obs {
 	c := CfgOfToks(a[0:4])
-	buf, p := Buffer(lib.UnHex(a[4]), lib.UnHex(a[5]))
+	frame := lib.UnHex(a[4])
+	RotateLevel(frame)
+	buf, p := Buffer(frame, lib.UnHex(a[5]))
 	return Observe(NewSession(c), buf, p)
+}
+
+// RotateLevel sets the library's log level (error / info / debug) as a function of the frame, so that every
+// sequential kind runs its cases under all three levels and a replay reproduces the level: the log level is a mode of
+// the code (lines are built under IsInfo / IsDebug), the result of Parse must not depend on it.  Output is discarded.
+func RotateLevel(frame []byte) {
+	h := uint32(2166136261)
+	for _, b := range frame {
+		h = (h ^ uint32(b)) * 16777619
+	}
+	packet.Logger.SetLevel([]fastlog.LogLevel{fastlog.LevelError, fastlog.LevelInfo, fastlog.LevelDebug}[h%3])
 }
 
 // ---------------------------------------------------------------------------
